@@ -142,6 +142,8 @@ def gen_program(rng, garbage=False, maxops=22):
             else:
                 lo, hi = a, b      # possibly min > max
             hi = min(hi, U64 - 2)  # domain: max < 2^64 - 1
+            if rng.random() < 0.03:
+                hi = U64 - 1        # outside the domain (max+1 wraps: nothing is deleted); compared with the model only
             prog["ops"].append({"op": "dr", "min": lo, "max": hi})
         elif k < 0.72:
             key = rng.choice(KEY_POOL)
@@ -345,6 +347,8 @@ def reference(p, outs):
             if got != want:
                 bad("store-monitor:" + k + "index", where + ": expected %s, got %s" % (want, got))
         elif k == "dr":
+            if o["max"] >= U64 - 1:
+                trusted = False     # outside the stated domain; the monitor stops judging this program
             if got != "ok":
                 bad("store-monitor:deleterange", where + ": " + got)
             for i in [i for i in log if o["min"] <= i <= o["max"]]:
@@ -552,8 +556,8 @@ def run(ck, replay):
     if res is None:
         return
     if not quick:
-        pick = [r for r in res if len(r["line"]) < 2500][:40]   # a Coq string literal of <= ~100 kB
-        vm = vlib.run_model_vm("\n".join(r["line"] for r in pick) + "\n")
+        pick = [r for r in res if len(r["line"]) < 2500][:40]
+        vm = c18.vm_chunks([r["line"] for r in pick])
         ck.add_obligation(vm == [r["model"] for r in pick], "extracted model agrees with vm_compute on %d store programs" % len(pick))
 
     dist = {"ops": {}, "entry_types": {}, "index_class": {}, "encodings": {"json_store": 0, "proto_store": 0}, "reopen": 0, "convert": 0,
